@@ -17,7 +17,7 @@ import (
 var strPool = []string{"x", "y", "zeta", "Ünï cödé", "a:b", "n(1)", "q+r", "[0]", "MIT", "https://example.com/p"}
 var purlPool = []string{"pkg:npm/left-pad@1.0.0", "pkg:npm/right-pad@2.0.0", "pkg:golang/github.com/x/y@v1", "pkg:/deb/debian/curl@7", "pkg:generic/z"}
 var hashVals = []string{"aa11", "bb22", "cc33"}
-var timePool = []int64{1577934245, 1577934246, 946684800, 0}
+var timePool = []int64{1577934245, 1577934246, 946684800, 0, 0, -62135596800, 253402300799} // incl. the epoch and the ends of the valid range
 
 func pick[T any](r *rand.Rand, xs []T) T { return xs[r.Intn(len(xs))] }
 
